@@ -367,7 +367,7 @@ def run_real(desc):
                     if kept:
                         pred = ("sampling does not reset the model: after reset_model() inside the second sample() on one %s object, %s still differ "
                                 "from their values after construction + add_observations" % (desc["model"], ", ".join(kept)))
-                        sig = "reset-model-keeps-hyperparameters" if set(kept) <= KNOWN_KEPT else "reset-model-keeps:" + ",".join(kept)
+                        sig = "reset-model-keeps-hyperparameters" if set(kept) <= KNOWN_KEPT else "reset-model-keeps:" + ",".join(k_ for k_ in kept if k_ not in KNOWN_KEPT)
     finally:
         np.random.set_state(saved)
     feats = ["real", desc["model"], "rows=%d" % desc["rows"]] + (["same-object-twice"] if desc.get("again") else []) + (["b=0"] if b == 0 else []) + (["t=1"] if t == 1 else [])
